@@ -369,22 +369,29 @@ func (p *networkSimplexProcessor) hbalance(g *graph.DGraph) {
 				continue
 			}
 			if p.lim[e.From] < p.lim[e.To] {
-				p.adjustLayers(e.From, d)
+				p.adjustLayers(e.From, d, graph.NodeSet{})
 			} else {
-				p.adjustLayers(e.To, -d)
+				p.adjustLayers(e.To, -d, graph.NodeSet{})
 			}
 		}
 	}
 }
 
-func (p *networkSimplexProcessor) adjustLayers(n *graph.Node, delta int) {
+// shifts the subtree rooted in n. A node is shifted only once: nodes that the last postorder numbering did not
+// reach have no lim value and compare equal to each other, and without the visited set two such nodes
+// joined by a tree edge would send the walk back and forth forever.
+func (p *networkSimplexProcessor) adjustLayers(n *graph.Node, delta int, visited graph.NodeSet) {
+	if visited[n] {
+		return
+	}
+	visited[n] = true
 	n.Layer -= delta
 	for _, e := range n.Out {
 		if !e.IsInSpanningTree {
 			continue
 		}
 		if !(p.lim[n] < p.lim[e.ConnectedNode(n)]) {
-			p.adjustLayers(e.To, delta)
+			p.adjustLayers(e.To, delta, visited)
 		}
 	}
 	for _, e := range n.In {
@@ -392,7 +399,7 @@ func (p *networkSimplexProcessor) adjustLayers(n *graph.Node, delta int) {
 			continue
 		}
 		if !(p.lim[n] < p.lim[e.ConnectedNode(n)]) {
-			p.adjustLayers(e.From, delta)
+			p.adjustLayers(e.From, delta, visited)
 		}
 	}
 }
